@@ -396,6 +396,28 @@ def weave(unit, repo=None, variant=None):
         for n, c in enumerate(before[len(base)]):
             out.insert(last + 1 + n, cur[c])
             origin.insert(last + 1 + n, ("code", None))
+    # a loop header replaced one-for-one by a loop of another kind (`while let` -> `for`, a range loop -> an iterator loop, ...)
+    # keeps its position but not the meaning of the invariant block that follows it: the function is fuzzy
+    def loop_kind(line):
+        t = re.sub(r"^'\w+:\s*", "", line.strip())
+        if t.startswith("while let "):
+            return "while-let"
+        if t.startswith("while "):
+            return "while"
+        if t == "loop" or t.startswith("loop "):
+            return "loop"
+        if t.startswith("for "):
+            return "for-range" if ".." in t else "for-iter"
+        return None
+    for (i1, n, j1) in equal_size_hunks:
+        for d in range(n):
+            kb = loop_kind(base[i1 + d])
+            if kb is None or kb == loop_kind(cur[j1 + d]):
+                continue
+            a0 = pos_of[i1 + d]
+            a1 = pos_of[i1 + d + 1] if i1 + d + 1 < len(base) else len(annotated)
+            if any(tags[z] is None and annotated[z].strip() for z in range(a0 + 1, a1)):
+                fuzzy_ranges.append((i1 + d, i1 + d + 1))
     text = "\n".join(out) + "\n"
     fuzzy_fns = set()
     for (i1, i2) in fuzzy_ranges:
